@@ -301,7 +301,7 @@ def mod_inputs(seed=0, tier='quick'):
         for t in pool + list(SPECIALS):
             for prec in (1, 3, 10, 53):
                 for rnd in RND5:
-                    yield dict(s=s, t=t, prec=prec, rnd=rnd)
+                    yield dict(s=s, t=t, prec=prec, rnd=rnd, _sub=0)
 
 
 GENS['mod_inputs'] = mod_inputs
@@ -464,3 +464,35 @@ def isqrt_inputs(seed=0, tier='quick'):
 
 
 GENS.update({'bitcount_inputs': bitcount_inputs, 'isqrt_inputs': isqrt_inputs})
+
+
+def _rv_pool():
+    return list(SPECIALS) + [mk(0, 1, 0), mk(1, 1, 0), mk(0, 3, -1), mk(1, 5, 2), mk(0, (1 << 60) + 1, -60), mk(1, (1 << 70) - 1, -10),
+                             mk(0, 1, -200), mk(0, 7, 90)]
+
+
+def rv2_inputs(seed=0, tier='quick'):
+    for s in _rv_pool():
+        for t in _rv_pool():
+            for prec in (0, 1, 5, 53):
+                for rnd in ('f', 'c', 'n'):
+                    yield dict(s=s, t=t, prec=prec, rnd=rnd, _sub=0)
+
+
+def rv1_inputs(seed=0, tier='quick'):
+    for s in _rv_pool():
+        for prec in (0, 1, 5, 53):
+            for rnd in ('f', 'c', 'n'):
+                yield dict(s=s, prec=prec, rnd=rnd)
+
+
+def rvseq_inputs(seed=0, tier='quick'):
+    pool = [x for x in _rv_pool() if x != fnan]
+    for a in pool:
+        for b in pool:
+            yield dict(seq=[a, b])
+            for c in pool[::3]:
+                yield dict(seq=[a, b, c, pool[1]])
+
+
+GENS.update({'rv2_inputs': rv2_inputs, 'rv1_inputs': rv1_inputs, 'rvseq_inputs': rvseq_inputs})
